@@ -4,6 +4,7 @@ import (
 	"errors"
 	"fmt"
 	"math/rand"
+	"strings"
 	"sync"
 
 	"github.com/go-kid/ioc/component_definition"
@@ -60,7 +61,13 @@ type protoStats struct {
 	nestedCreate, earlyLookup, failureThenLookup, creations, failures, earlyRefs int
 }
 
+// isOriginal, when set, tells whether a meta id denotes a component's own definition (not a version a
+// post-processor produced); used by the traced histories only.
 func checkProtocol(ev []mon.TraceEv, drivenClient ...bool) (violations []string, st protoStats) {
+	return checkProtocolWith(ev, nil, drivenClient...)
+}
+
+func checkProtocolWith(ev []mon.TraceEv, isOriginal func(id int) bool, drivenClient ...bool) (violations []string, st protoStats) {
 	driven := len(drivenClient) > 0 && drivenClient[0]
 	names := map[string]*nameState{}
 	get := func(n string) *nameState {
@@ -124,6 +131,11 @@ func checkProtocol(ev []mon.TraceEv, drivenClient ...bool) (violations []string,
 			}
 			if e.Meta == 0 {
 				bad(e, "get-or-create returned nil without error")
+			}
+			if isOriginal != nil && s.state == "creating" && s.early != 0 && e.Meta != s.early && isOriginal(e.Meta) && !isOriginal(s.early) {
+				// the lookups during this creation were answered with a version produced by a post-processor; what
+				// is published afterwards is that version (or a later one that replaces it) - never the original again
+				bad(e, "the creation publishes the component's original (m%d) although its lookups during the creation were answered with the early version m%d: lookups during and after the creation disagree", e.Meta, s.early)
 			}
 			s.state, s.published = "published", e.Meta
 		case "early-fn":
@@ -436,8 +448,12 @@ func (p c04) drivenSideBySide(c *core.Ctx) {
 	}
 }
 
-func (p c04) judge(c *core.Ctx, ev []mon.TraceEv, source string, detail map[string]any) {
-	vs, st := checkProtocol(ev, source == "driven")
+func (p c04) judge(c *core.Ctx, ev []mon.TraceEv, source string, detail map[string]any, isOriginal ...func(int) bool) {
+	var orig func(int) bool
+	if len(isOriginal) > 0 {
+		orig = isOriginal[0]
+	}
+	vs, st := checkProtocolWith(ev, orig, source == "driven")
 	c.Count("histories_"+source, 1)
 	c.Count("registry_events", len(ev))
 	c.Count("creations", st.creations)
@@ -547,9 +563,14 @@ func (p c04) traced(c *core.Ctx) {
 		sc = RandomGraph(c.Rng, GraphOpts{MinN: 2, MaxN: 7, Types: plainAB, PCycle: 1, Chords: 2, ByTypeSlice: 0.2, OnlyIface: true, PUnnamed: 0.3})
 		plan = map[string]world.SubPlan{}
 		for x := 0; x < 1+c.Rng.Intn(2); x++ {
-			plan[sc.Nodes[c.Rng.Intn(len(sc.Nodes))].DisplayName()] = world.SubPlan{Early: true}
+			plan[sc.Nodes[c.Rng.Intn(len(sc.Nodes))].DisplayName()] = []world.SubPlan{{Early: true}, {Early: true}, {After: true}, {Early: true, After: true, Same: true}}[c.Rng.Intn(4)]
 		}
 		extra = append(extra, world.NewSubstituter(plan))
+		if c.Rng.Intn(2) == 0 {
+			// ... with lookups from inside initialization callbacks: the early version may be asked for first while
+			// the component is being initialised
+			c.Count("init_lookups", AddInitLookups(c.Rng, sc, 0.3))
+		}
 	}
 	// inject faults: init / aps failures in some components (lazy ones are only hit by the later lookups);
 	// half of them transient (fail on the first invocation only), so that a later lookup re-attempts
@@ -636,7 +657,10 @@ func (p c04) traced(c *core.Ctx) {
 		}
 	}
 	c.Count("start_outcome_"+r.Outcome(), 1)
-	p.judge(c, r.Tracer.Events(), "traced", failDetail(sc, r, nil))
+	metas := r.Tracer.Metas
+	p.judge(c, r.Tracer.Events(), "traced", failDetail(sc, r, map[string]any{"plan": plan}), func(id int) bool {
+		return id >= 1 && id <= len(metas) && metas[id-1] != nil && metas[id-1].ProxyMeta == nil
+	})
 	if c.Failed() {
 		return
 	}
@@ -659,7 +683,14 @@ func (p c04) traced(c *core.Ctx) {
 			ps = append(ps, cmp.Kind+": "+cmp.Msg)
 		}
 	}
-	ps = append(ps, r.CheckIdentity(pop)...)
+	for _, q := range r.CheckIdentity(pop) {
+		if strings.HasPrefix(q, world.LookupMismatch) {
+			// what user code retained from a lookup it issued during an attempt that failed afterwards is C01's
+			// subject (and its known finding); here the holders and the registry's answers are judged
+			continue
+		}
+		ps = append(ps, q)
+	}
 	c.Count("recreated_after_transient_failure_checked", 1)
 	if len(ps) > 0 {
 		class := ""
